@@ -11,6 +11,7 @@ import numpy as np
 from mc import alphabets as A
 from mc.harness import Result, Sub, digest
 from mc.ref import hessvec as HV
+from mc.ref import c15x as X
 from mc.ref.base import frac_tie_margin, mk_snap, mk_snaps, write_neighbor_file
 
 ASSUMPTIONS = [
@@ -27,6 +28,12 @@ ASSUMPTIONS = [
     "(C14); columns whose reference C(0) < 1e-4 (a vanishing L or T part: 0/0) are not compared",
     "vibrability: frequencies are non-zero (the caller passes the dN-d non-zero modes)",
     "float tolerance rtol 1e-9 / atol 1e-11 unless stated",
+    "C15.scale enumerates SIZES (64..257 particles, 63..257 wave vectors / modes, 3 / 64 / 65 frames) with one fixed generic value pattern "
+    "per size; neighbour lists there are harness-written formula lists (1..4 neighbours, one particle with 70 or 200 = the reader's default "
+    "Nmax); coordination numbers never exceed 200 (the documented maximum); argument forms there: column-major fields / eigenvector matrices, "
+    "non-contiguous field views, int32 wave vectors (utils.wavevector's dtype), ppp given as a list",
+    "vector_fft_corr: the cell is the same in every frame (the routine adds the per-frame |q|-group tables index by index and labels the "
+    "wave vectors with the cell of frame 0, so a varying cell has no documented meaning); positions and fields differ in every frame",
 ]
 
 
@@ -645,6 +652,320 @@ def run_corr(case):
     return R
 
 
+# ============================================================================================== C15.scale
+SCALE_N = [64, 65, 130, 257]
+SCALE_NQ = [63, 64, 65, 129, 257]
+LISTKINDS = ["first", "last", "formula", "wide", "one"]
+
+
+def gen_scale(tier, seed):
+    q = tier == "quick"
+    for N in SCALE_N:
+        for d in (2, 3):
+            yield {"kind": "pr", "N": N, "d": d, "seed": seed}
+            for lk in LISTKINDS:
+                yield {"kind": "align", "N": N, "d": d, "lk": lk, "seed": seed}
+            ms = A.masks(d)
+            if q:
+                ms = [ms[0], ms[-1], ms[1]]
+            for cell in ("orth", "tri"):
+                for mi, mask in enumerate(ms):
+                    yield {"kind": "divcurl", "N": N, "d": d, "cell": cell, "ppp": mask, "lk": LISTKINDS[(mi + (cell == "tri") + N) % 5], "seed": seed}
+    for N in (64, 257):
+        for d in (2, 3):
+            for M in SCALE_NQ:
+                if q and (N, d, M) not in ((64, 2, 129), (64, 3, 65), (257, 2, 257), (257, 3, 63), (257, 3, 64)):
+                    continue
+                yield {"kind": "vib", "N": N, "d": d, "M": M, "seed": seed}
+    for nq in SCALE_NQ:
+        for d in (2, 3):
+            for bk in ("rect", "cube"):
+                for N in (5, 65, 130):
+                    if q and (N == 130 or (bk == "cube" and N == 5)):
+                        continue
+                    yield {"kind": "decomp", "N": N, "d": d, "nq": nq, "box": bk, "seed": seed}
+    corr = [(3, 129), (3, 257), (65, 63), (64, 65)] if q else [(3, 129), (3, 257), (65, 63), (64, 65), (65, 129), (63, 64), (129, 65)]
+    for (T, nq) in corr:
+        for d in (2, 3):
+            for sp in ("even", "uneven", "lastgap"):
+                if q and T > 3 and (d, sp) in ((3, "uneven"), (2, "lastgap")):
+                    continue
+                yield {"kind": "corr", "T": T, "nq": nq, "d": d, "N": 7, "spacing": sp, "box": "rect", "dt": 0.002, "seed": seed}
+
+
+def _scale_lists(case):
+    N = case["N"]
+    return X.ragged_lists(N, 1, case["lk"], wide=200 if N > 200 else 70)
+
+
+def run_scale(case):
+    return {"pr": scale_pr, "align": scale_align, "divcurl": scale_divcurl, "vib": scale_vib, "decomp": scale_decomp, "corr": scale_corr}[case["kind"]](case)
+
+
+def scale_pr(case):
+    from PyMatterSim.static.vector import participation_ratio
+
+    R = Result()
+    N, d, seed = case["N"], case["d"], case["seed"]
+    sg = {"kind": "pr", "d": d, "scale": True}
+    g = X.garray(seed, f"c15spr{N}_", (N, d), 1.0)
+    loc = np.zeros((N, d))
+    loc[N - 1, d - 1] = 0.75  # localised on the LAST particle
+    half = g.copy()
+    half[: N // 2] = 0.0  # supported on the upper half of the ids
+    outs = []
+    for name, v in (("generic", g), ("last_site", loc), ("upper_half", half)):
+        v0 = v.copy()
+        got = participation_ratio(v)
+        exp = HV.ref_pr(v)
+        outs.append(float(got))
+        if not np.isfinite(got) or abs(got - exp) > 1e-12:
+            R.fail(f"N={N} {name}: PR = {got!r}, (sum|e|^2)^2/(N sum|e|^4) = {exp!r}", sig=dict(sg, clause="formula"), exp=exp, obs=got)
+        if not (1.0 / N - 1e-12 <= got <= 1.0 + 1e-12):
+            R.fail(f"N={N} {name}: PR = {got!r} outside [1/N, 1]", sig=dict(sg, clause="range"))
+        for s_ in (2.0, 1e-3, 3.0):
+            g2 = participation_ratio(s_ * v)
+            if abs(g2 - got) > 1e-12:
+                R.fail(f"N={N} {name}: PR({s_} e) = {g2!r} != PR(e) = {got!r}", sig=dict(sg, clause="scale"))
+        if not np.array_equal(v, v0):
+            R.fail("input modified", sig=dict(sg, clause="input_modified"))
+    R.outcome(outs)
+    R.elem = 15
+    return R
+
+
+def scale_align(case):
+    from PyMatterSim.static.vector import local_vector_alignment, phase_quotient
+
+    R = Result()
+    N, d, seed = case["N"], case["d"], case["seed"]
+    nl = _scale_lists(case)
+    sg = {"kind": "align", "d": d, "lists": case["lk"], "scale": True}
+    write_neighbor_file("nl_sc.dat", [nl])
+    g = X.garray(seed, f"c15sal{N}_", (N, d), 1.0)
+    alt = np.array([[(1.0 if (i // 2) % 2 == 0 else -1.0) * (1 + (i % 3))] + [0.5] * (d - 1) for i in range(N)])
+    outs = []
+    if case["lk"] in ("last", "wide"):
+        g = np.asfortranarray(g)  # argument form: column-major field
+    for name, v in (("generic", g), ("alternating", alt)):
+        v0 = v.copy(order="K")
+        got = np.asarray(local_vector_alignment(v, "nl_sc.dat"))
+        exp = HV.ref_alignment(v, nl)
+        if got.shape != exp.shape or not np.allclose(got, exp, rtol=1e-9, atol=1e-11):
+            k = int(np.argmax(~np.isclose(got, exp, rtol=1e-9, atol=1e-11))) if got.shape == exp.shape else -1
+            R.fail(f"N={N} lists={case['lk']} {name}: alignment of particle {k} (cn {len(nl[k]) if k >= 0 else '?'}) != mean neighbour dot product",
+                   sig=dict(sg, clause="alignment"), exp=exp[max(0, k - 2):k + 3], obs=got[max(0, k - 2):k + 3] if k >= 0 else got.shape)
+        num, den = HV.ref_pq(v, nl)
+        pq = float(phase_quotient(v, "nl_sc.dat"))
+        if not np.isfinite(pq) or abs(pq - num / den) > 1e-12:
+            R.fail(f"N={N} lists={case['lk']} {name}: PQ = {pq!r}, sum dots / sum |dots| = {num / den!r}", sig=dict(sg, clause="pq"), exp=num / den, obs=pq)
+        if not -1.0 - 1e-12 <= pq <= 1.0 + 1e-12:
+            R.fail(f"PQ = {pq!r} outside [-1, 1]", sig=dict(sg, clause="pq_range"))
+        if not np.array_equal(v, v0):
+            R.fail("input modified", sig=dict(sg, clause="input_modified"))
+        outs.append(np.append(got, pq))
+    os.remove("nl_sc.dat")
+    R.outcome(np.array(outs))
+    R.nontrivial = len({len(x) for x in nl}) > 1
+    R.elem = 2 * (N + 1)
+    return R
+
+
+def scale_divcurl(case):
+    from PyMatterSim.static.vector import divergence_curl
+
+    R = Result()
+    N, d, seed = case["N"], case["d"], case["seed"]
+    H = cell15(d, case["cell"])
+    ppp = np.array(case["ppp"])
+    pos = np.array(A.generic_points(seed, N, d, tag=f"c15sdc{N}{d}_")) @ H
+    nl = _scale_lists(case)
+    sg = {"kind": "divcurl", "d": d, "cell": case["cell"], "periodic": bool(ppp.any()), "lists": case["lk"], "scale": True}
+    diffs = np.array([pos[j] - pos[i] for i in range(N) for j in nl[i]])
+    if frac_tie_margin(diffs, H, ppp) < 1e-7:
+        return R.screen()
+    write_neighbor_file("nl_sdc.dat", [nl])
+    snap = mk_snap(pos, H, [1] * N)
+    outs = []
+    fields = [("generic", X.garray(seed, f"c15sdu{N}_", (N, d), 1.0)), ("linear", pos @ np.array(LIN[d]["generic"], float).T)]
+    for name, u in fields:
+        u0 = u.copy()
+        res = divergence_curl(snap, u, ppp.tolist() if case["cell"] == "tri" else ppp, "nl_sdc.dat")  # argument form: ppp as a list
+        ediv, ecurl = HV.ref_divcurl(pos, H, ppp, u, nl)
+        scale = 1.0 + float(np.abs(u).max()) * float(np.abs(H).max())
+        if d == 2:
+            gdiv, gcurl = np.asarray(res), None
+        else:
+            gdiv, gcurl = np.asarray(res[0]), np.asarray(res[1])
+        if gdiv.shape != (N,) or not np.allclose(gdiv, ediv, rtol=1e-9, atol=1e-11 * scale):
+            k = int(np.argmax(~np.isclose(gdiv, ediv, rtol=1e-9, atol=1e-11 * scale))) if gdiv.shape == (N,) else -1
+            R.fail(f"N={N} lists={case['lk']} {name}: divergence of particle {k} != neighbour mean of R_ij . u_ij", sig=dict(sg, clause="divergence"),
+                   exp=ediv[max(0, k - 2):k + 3], obs=gdiv[max(0, k - 2):k + 3] if k >= 0 else gdiv.shape)
+        if d == 3 and (gcurl.shape != (N, 3) or not np.allclose(gcurl, ecurl, rtol=1e-9, atol=1e-11 * scale)):
+            k = int(np.argmax(~np.isclose(gcurl, ecurl, rtol=1e-9, atol=1e-11 * scale).all(axis=1))) if gcurl.shape == (N, 3) else -1
+            R.fail(f"N={N} lists={case['lk']} {name}: curl of particle {k} != neighbour mean of R_ij x u_ij", sig=dict(sg, clause="curl"),
+                   exp=ecurl[max(0, k - 1):k + 2], obs=gcurl[max(0, k - 1):k + 2] if k >= 0 else gcurl.shape)
+        if not (np.array_equal(u, u0) and np.array_equal(snap.positions, pos)):
+            R.fail("input modified", sig=dict(sg, clause="input_modified"))
+        outs.append(gdiv if d == 2 else np.column_stack((gdiv, gcurl)))
+    os.remove("nl_sdc.dat")
+    R.outcome(np.array(outs), nd=7)
+    R.elem = 2 * N * (1 if d == 2 else 4)
+    return R
+
+
+def scale_vib(case):
+    from PyMatterSim.static.vector import vibrability
+
+    R = Result()
+    N, d, M = case["N"], case["d"], case["M"]
+    V = X.mode_matrix(N * d, M)
+    fr = np.array([0.5 + 0.03125 * ((7 * l) % 41) for l in range(M)])
+    sg = {"kind": "vib", "d": d, "scale": True}
+    if (N + M + d) % 2:
+        V = np.asfortranarray(V)  # argument form: column-major eigenvector matrix (as returned by LAPACK-backed eigh)
+    V0, f0 = V.copy(order="K"), fr.copy()
+    got = np.asarray(vibrability(fr, V, N))
+    exp = HV.ref_vibrability(fr, V, N)
+    if got.shape != (N,) or not np.allclose(got, exp, rtol=1e-9, atol=1e-12):
+        R.fail(f"N={N} modes={M}: vibrability != sum_l |e_(l,i)|^2 / omega_l^2", sig=dict(sg, clause="vibrability"), exp=exp[:6], obs=got[:6])
+    if not (np.array_equal(V, V0) and np.array_equal(fr, f0)):
+        R.fail("input modified", sig=dict(sg, clause="input_modified"))
+    R.outcome(got)
+    R.elem = N
+    return R
+
+
+def scale_decomp(case):
+    import pandas as pd
+    from PyMatterSim.static.vector import vector_decomposition_sq
+
+    R = Result()
+    N, d, nq, seed = case["N"], case["d"], case["nq"], case["seed"]
+    L = box_for(d, case["box"])
+    pos = np.array(positions(seed, N, d, L, "sdec" + case["box"]))
+    v = X.garray(seed, f"c15sdv{N}_", (N, d), 1.0)
+    qint = np.array(X.qlist(d, nq), dtype=np.int32 if nq % 2 else np.int64)  # argument form: utils.wavevector returns int32
+    if N % 2:
+        big = np.zeros((N, d + 2))
+        big[:, 1:d + 1] = v
+        v = big[:, 1:d + 1]  # argument form: non-contiguous view
+    sg = {"kind": "decomp", "d": d, "box": case["box"], "scale": True}
+    ref = HV.ref_decomposition(pos, L, qint, v)
+    if key_margin(ref["qn"]) < 1e-4:
+        return R.screen()
+    snap = mk_snap(pos, np.diag(L), [1] * N)
+    v0, q0 = v.copy(), qint.copy()
+    tab, ave = vector_decomposition_sq(snap, qint, v, outputfile="sdec_out")
+    got = compare_decomp(R, sg, tab, ave, ref, d)
+    if not os.path.exists("sdec_out.csv"):
+        R.fail("outputfile + '.csv' not written", sig=dict(sg, clause="csv"))
+    else:
+        back = pd.read_csv("sdec_out.csv")
+        if list(back.columns) != list(ave.columns) or back.shape != ave.shape or np.abs(back.values - ave.values).max() > 0.5e-8 + 1e-11 * (1.0 + np.abs(ave.values).max()):
+            R.fail("CSV differs from the returned group table beyond %.8f", sig=dict(sg, clause="csv"))
+        os.remove("sdec_out.csv")
+    if not (np.array_equal(v, v0) and np.array_equal(qint, q0) and np.array_equal(snap.positions, pos)):
+        R.fail("input modified", sig=dict(sg, clause="input_modified"))
+    if got is not None:
+        R.outcome({"F": got["F"], "L": got["FL"]}, nd=6)
+    R.nontrivial = bool(np.abs(ref["FL"]).max() > 1e-6 and np.abs(ref["FT"]).max() > 1e-6)
+    R.elem = nq * (3 * d + 3) * 2
+    return R
+
+
+def scale_corr(case):
+    import pandas as pd
+    from PyMatterSim.static.vector import vector_fft_corr
+
+    R = Result()
+    T, nq, d, N, seed = case["T"], case["nq"], case["d"], case["N"], case["seed"]
+    L = box_for(d, case["box"])
+    base = np.array(positions(seed, N, d, L, "scorr"))
+    frames = [base + X.garray(seed, f"c15scm{t}_", (N, d), 0.4) * (t > 0) for t in range(T)]
+    vecs = np.array([X.garray(seed, f"c15scv{t}_", (N, d), 1.0) for t in range(T)])
+    qint = np.array(X.qlist(d, nq))
+    if case["spacing"] == "even":
+        steps = [100 + 20 * t for t in range(T)]
+    elif case["spacing"] == "uneven":
+        steps = [100 + (t * (t + 1)) // 2 for t in range(T)]
+    else:
+        steps = [100 + 20 * t + (7 if t == T - 1 else 0) for t in range(T)]
+    even = HV.even_spacing(steps)
+    sg = {"kind": "corr", "d": d, "spacing": case["spacing"], "scale": True}
+    where = f"T={T} nq={nq} spacing={case['spacing']}"
+    refs = [X.decomposition(frames[t], L, qint, vecs[t]) for t in range(T)]
+    if key_margin(refs[0]["qn"]) < 1e-4:
+        return R.screen()
+    snaps = mk_snaps([f.tolist() for f in frames], np.diag(L), [1] * N, steps=steps)
+    v0 = vecs.copy()
+    res = vector_fft_corr(snaps, qint, vecs, dt=case["dt"], outputfile="scorr")
+    texp = np.array([(s - steps[0]) * case["dt"] for s in steps])
+    qmin = float(refs[0]["qn"].min())
+    if sorted(res.keys()) != ["FFT", "L_FFT", "T_FFT"]:
+        R.fail(f"keys {sorted(res.keys())}", sig=dict(sg, clause="keys"))
+        return R
+    dig = []
+    ncmp = 0
+    for header, key in (("FFT", "F"), ("T_FFT", "FT"), ("L_FFT", "FL")):
+        tab = res[header]
+        if tab.shape != (nq, d + 1 + T):
+            R.fail(f"{header}: table shape {tab.shape}, expected {(nq, d + 1 + T)} ({where})", sig=dict(sg, clause="shape", header=header))
+            continue
+        vals = tab.values.astype(float)
+        tcols = np.array([float(c) for c in tab.columns[d + 1:]])
+        if np.abs(tcols - texp).max() > 1e-9:
+            R.fail(f"{header}: time axis != (step - step0) dt ({where})", sig=dict(sg, clause="time_axis", header=header))
+        if np.abs(vals[:, :d] - refs[0]["q"]).max() > 0.6e-8 or np.abs(vals[:, d] - refs[0]["qn"]).max() > 0.6e-8:
+            R.fail(f"{header}: wave-vector columns differ ({where})", sig=dict(sg, clause="qcolumns", header=header))
+        x = np.array([refs[t][key] for t in range(T)])  # (T, nq, d)
+        C = X.timecorr(x, even)  # (T, nq)
+        C0 = C[0]
+        # error budget as in C15.fft_corr: every transform component carries <= 1e-8 (round(8)) (+ the unit-q effect for L, T)
+        Fm = np.array([np.abs(refs[t]["F"]).max(axis=1) for t in range(T)]).max(axis=0)  # per q
+        dx = 1e-8 + (0.0 if header == "FFT" else 2e-8 * (1.0 + Fm * (1.0 + 1.0 / qmin)))
+        xs = np.abs(x).sum(axis=2).max(axis=0)
+        dC = 2.0 * xs * dx + d * dx * dx
+        use = C0 >= 1e-4
+        tol = (dC[None, :] * (1.0 + np.abs(C) / np.where(use, C0, 1.0)[None, :])) / np.where(use, C0 - dC, 1.0)[None, :] + 0.6e-8
+        got = vals[:, d + 1:].T  # (T, nq)
+        exp = C / np.where(use, C0, 1.0)[None, :]
+        bad = (~np.isfinite(got) | (np.abs(got - exp) > tol)) & use[None, :]
+        ncmp += int(use.sum()) * T
+        if bad.any():
+            m = int(np.argmax(bad.any(axis=0)))
+            k = int(np.argmax(bad[:, m]))
+            R.fail(f"{header}: time correlation at wave vector #{m} {qint[m].tolist()} lag index {k} = {got[k, m]!r}, reference {exp[k, m]!r} ({where})",
+                   sig=dict(sg, clause="time_corr", header=header), exp=exp[:6, m], obs=got[:6, m])
+        elif (got[0][use] != 1.0).any():
+            R.fail(f"{header}: C(0) != 1 ({where})", sig=dict(sg, clause="lag0", header=header))
+        if not os.path.exists(f"scorr.{header}.npy") or not np.array_equal(np.load(f"scorr.{header}.npy"), tab.values, equal_nan=True):
+            R.fail(f"scorr.{header}.npy differs from the returned table", sig=dict(sg, clause="npy", header=header))
+        dig.append(np.nan_to_num(vals[:, d + 1:], nan=-9.0))
+    keys = np.round(refs[0]["qn"], 8)
+    acc = 0
+    for t in range(T):
+        gk, gm = X.group_means(keys, [refs[t]["S"], refs[t]["ST"], refs[t]["SL"]])
+        acc = acc + gm
+    acc = acc / T
+    if not os.path.exists("scorr.spectra.csv"):
+        R.fail("spectra file not written", sig=dict(sg, clause="spectra_file"))
+    else:
+        sp = pd.read_csv("scorr.spectra.csv")
+        Fmm = max(float(np.abs(r["F"]).max()) for r in refs)
+        if list(sp.columns) != ["q", "Sq", "Sq_T", "Sq_L"] or len(sp) != len(gk) or np.abs(sp.values[:, 0] - gk).max() > 1e-8 \
+                or np.abs(sp.values[:, 1:] - acc).max() > 1e-7 * (1 + Fmm * Fmm):
+            R.fail(f"spectra file != frame mean of the |q|-group means of Sq, Sq_T, Sq_L ({where})", sig=dict(sg, clause="spectra"), exp=acc[:6], obs=sp.values[:6])
+    for f in ("scorr.spectra.csv", "scorr.FFT.npy", "scorr.T_FFT.npy", "scorr.L_FFT.npy"):
+        if os.path.exists(f):
+            os.remove(f)
+    if not np.array_equal(vecs, v0):
+        R.fail("input modified", sig=dict(sg, clause="input_modified"))
+    R.outcome(np.round(np.array(dig), 6) if dig else None)
+    R.elem = ncmp
+    return R
+
+
 # ----------------------------------------------------------------------------------------------------------
 def subs(tier, seed):
     q = tier == "quick"
@@ -673,4 +994,15 @@ def subs(tier, seed):
             rule="E2: BFS over frame-append histories, " + ("3 field letters, T<=3" if q else "4 field letters, T<=4") + " (split by first letter), x {2D,3D} x 2 wave-vector "
                  "lists x {even, uneven} timesteps x {static, moving} positions x dt; invariant in every state: FFT/T_FFT/L_FFT tables == reference time "
                  "correlation (C14 model) of the reference transforms, C(0)==1, time axis, .npy files, spectra file"),
+        Sub("C15.scale", gen_scale, run_scale,
+            rule="SIZE enumeration (one fixed generic value pattern per size): PR / alignment / phase quotient / divergence-curl with N in "
+                 + str(SCALE_N) + " x {2D,3D} x ragged harness-written lists {max coordination at the first / last particle only, formula, one "
+                 "particle with 70 or 200 (= reader Nmax) neighbours, first particle with exactly one} (divcurl: x {orthogonal, triclinic} x "
+                 + ("3 masks" if q else "all masks") + "); vibrability with N in {64,257} and " + ("5 of the " if q else "all ") + "mode counts in "
+                 + str(SCALE_NQ) + "; vector_decomposition_sq with wave-vector lists of length " + str(SCALE_NQ) + " (the vectors of smallest modulus) x "
+                 "{rectangular, cubic} box x N in " + ("{5,65}" if q else "{5,65,130}") + "; vector_fft_corr with (frames, wave vectors) in "
+                 + ("[(3,129),(3,257),(65,63),(64,65)]" if q else "[(3,129),(3,257),(65,63),(64,65),(65,129),(63,64),(129,65)]")
+                 + " x {even, every-gap-different, even-except-last-gap} timesteps, positions and fields different in every frame; every entry "
+                 "compared with the loop references (time correlation: vectorised C14 model of the reference transforms)",
+            bounds={"N": SCALE_N, "wave_vectors": SCALE_NQ, "frames": [3, 64, 65] if q else [3, 63, 64, 65, 129]}),
     ]
